@@ -31,6 +31,7 @@ func main() {
 	list := flag.Bool("list", false, "list properties")
 	dump := flag.String("dump", "", "debug: dump path summaries of the named function")
 	ssaDump := flag.String("ssa", "", "debug: print the SSA of the named function")
+	effDump := flag.String("effects", "", "debug: print the effect summary of the named function")
 	flag.Parse()
 
 	if *list {
@@ -64,6 +65,29 @@ func main() {
 	}
 	start := time.Now()
 
+	if *effDump != "" {
+		w, err := Load(*repo, *tier, false)
+		if err != nil {
+			fmt.Println("load failed:", err)
+			os.Exit(2)
+		}
+		for _, f := range w.Funcs {
+			if strings.HasSuffix(f.String(), *effDump) {
+				ef := w.Effects()[f]
+				fmt.Println("==", f, "writesParam", ef.WritesParam, "unknown", ef.WritesUnknown, "storesParam", ef.StoresParam)
+				for i, rp := range ef.RetProv {
+					fmt.Println("   ret", i, rp)
+				}
+				for _, s := range ef.Sites {
+					fmt.Println("   site", s.What, w.InstrPos(s.Instr), s.Prov, s.Field)
+				}
+				for _, s := range ef.RetainSites {
+					fmt.Println("   retain", s.What, w.InstrPos(s.Instr), s.Prov)
+				}
+			}
+		}
+		return
+	}
 	if *ssaDump != "" {
 		w, err := Load(*repo, *tier, false)
 		if err != nil {
